@@ -85,7 +85,7 @@ func (e *Env) livenessClass(s *State, v, d int, res string) string {
 		if e.Mon.ValueChanged {
 			return "pool_short_after_value_change" // D6: entitlements follow CURRENT token values
 		}
-		if precisionStressed(s) || precisionShortfall(s, lastDetail) {
+		if precisionStressed(s) || e.precisionShortfall(s, lastDetail) {
 			return "pool_short_large_stake" // 18-digit share ratios / indices out of resolution
 		}
 		return "pool_short"
@@ -203,7 +203,7 @@ func (e *Env) Probe(st *Step) {
 				cls := "pool_short"
 				if e.Mon.ValueChanged {
 					cls = "pool_short_after_value_change" // D6: payout uses current token value
-				} else if a := post.Asset(dl.Denom); a != nil && a.T.Cmp(bigE15) >= 0 || precisionStressed(post) || precisionShortfall(post, lastDetail) {
+				} else if a := post.Asset(dl.Denom); a != nil && a.T.Cmp(bigE15) >= 0 || precisionStressed(post) || e.precisionShortfall(post, lastDetail) {
 					cls = "pool_short_large_stake" // the 18-digit per-token index rounds up; times a large stake
 				}
 				st.pfail("C12", cls, "claim of (%d,%d,%d) fails when everybody claims: pool holds %s", dl.Del, dl.Val, dl.Denom, e.App.BankKeeper.GetAllBalances(cctx, e.acctAddr[AccPool]))
@@ -382,13 +382,24 @@ var reShort = regexp.MustCompile(`spendable balance (\d+)\S* is smaller than (\d
 // precisionShortfall: the pool is short by no more than the 18-digit resolution of the validators' share ratios explains:
 // a validator holding the fraction r of an asset has its token total computed to a relative 1e-18/r, and the rewards it
 // receives are over-entitled by up to that much (quantitative form of precisionStressed, from the bank's error text)
-func precisionShortfall(s *State, detail string) bool {
+func (e *Env) precisionShortfall(s *State, detail string) bool {
 	m := reShort.FindStringSubmatch(detail)
 	if m == nil {
 		return false
 	}
 	have, want := bi(m[1]), bi(m[2])
 	short := new(big.Rat).SetFrac(new(big.Int).Sub(want, have), want)
+	bound := resolutionBound(s)
+	// the over-entitlement is baked into the reward index when it is bumped: what counts is the worst resolution the
+	// history has been through, not only the present one
+	if e.Mon.MaxResolution != nil && e.Mon.MaxResolution.Cmp(bound) > 0 {
+		bound = e.Mon.MaxResolution
+	}
+	return short.Cmp(bound) <= 0
+}
+
+// resolutionBound: Σ over (validator, asset) holdings of 8e-18 / (validator's fraction of the asset's shares)
+func resolutionBound(s *State) *big.Rat {
 	bound := new(big.Rat)
 	for i := range s.Assets {
 		a := &s.Assets[i]
@@ -400,7 +411,7 @@ func precisionShortfall(s *State, detail string) bool {
 			}
 		}
 	}
-	return short.Cmp(bound) <= 0
+	return bound
 }
 
 // poolLarge: some reward balance of the pool is at least 1e15 base units
